@@ -5,6 +5,6 @@ CONSTANTS
   Alphabet <- AlphaWide
   MaxLen = 3
   Datas <- DatasSmall
-INVARIANTS TypeOK PcOnInstr JumpLanding
+INVARIANTS TypeOK PcOnInstr JumpLanding DestDefsAgree
 PROPERTY MemMonotone
 CHECK_DEADLOCK FALSE
